@@ -1,18 +1,5 @@
-# per-property configuration of driver/check.py
-PROPS = {
-    "C04": dict(
-        module="Storrent.Props.C04", prop_files=["Storrent/Props/C04.lean"],
-        exe="model-c04", harness="c04", quick_n=20000, thorough_n=150000, thorough_seeds=8,
-        reset_prefixes=None,
-        trusted=["zeebo/bencode is a parameter `bd` of the theorems (any behaviour)"],
-        assumptions=["bufio.Reader / io.ReadFull / io.LimitedReader behave as documented",
-                     "allocation measured as runtime.MemStats.TotalAlloc delta, bound 128*L+64KiB"],
-    ),
-    "C06": dict(
-        module="Storrent.Props.C06", prop_files=["Storrent/Props/C06.lean"],
-        exe="model-c06", harness="c06", quick_n=12000, thorough_n=120000, thorough_seeds=8,
-        reset_prefixes=None,
-        trusted=["bencoded extension payloads: encoder/decoder pair tied to zeebo/bencode by the correspondence stream only (round-trip theorem covers the fixed-layout messages)"],
-        assumptions=["bufio.Reader over io.MultiReader(init, conn) delivers the concatenation of init and the connection's bytes"],
-    ),
-}
+# per-property configuration of driver/check.py: one JSON file per property in props.d/
+import glob, json, os
+PROPS = {}
+for _f in sorted(glob.glob(os.path.join(os.path.dirname(os.path.abspath(__file__)), "props.d", "C*.json"))):
+    PROPS[os.path.basename(_f)[:-5]] = json.load(open(_f))
